@@ -1,118 +1,35 @@
 """Regenerate lean/Cel/Gen/*.lean from /repo's current working tree.
 
-Each generator returns Lean source, or raises TranslationError.  A failed
-generator writes a stub that makes the dependent bridge fail to build
-(`#exit`-free: it simply omits the definitions), and the failure text is
-recorded in Gen/_status.json for the check to report.
+Generators live in the sibling modules `gen_*.py`; each exposes
+`GENERATORS = {"<GenFileName>": function returning Lean source}`.  A generator
+that raises (TranslationError, SyntaxError of the source, …) produces a stub
+that makes the dependent bridge fail to build; the reason is recorded in
+Gen/_status.json and reported by the check (handled like a broken bridge).
 """
 from __future__ import annotations
-import ast, json, os, sys
+import importlib, json, os, pkgutil, sys
 from pathlib import Path
-from .py2lean import (TranslationError, translate_range_decorator, translate_int_class,
-                      translate_logic_fn, find_func, find_class, lean_str, lean_list, EXC_MAP)
+from .py2lean import TranslationError
+from .common import HEADER
 
-REPO = Path(os.environ.get("VERIF_REPO", "/repo"))
 VERIF = Path(__file__).resolve().parents[3]
 GEN = VERIF / "lean" / "Cel" / "Gen"
 
-HEADER = "-- GENERATED by py/verif/translate/regen.py from {src} — do not edit.\n"
 
-
-def parse(rel: str) -> ast.Module:
-    return ast.parse((REPO / rel).read_text())
-
-
-def gen_num() -> str:
-    m = parse("src/celpy/celtypes.py")
-    out = [HEADER.format(src="src/celpy/celtypes.py (int64, uint64, IntType, UintType)"),
-           "import Cel.Model.Num\nnamespace Cel.Gen\nopen Cel (PyM pyFloorDiv pyMod pyAbs)\n"]
-    out.append(translate_range_decorator(m, "int64"))
-    out.append(translate_range_decorator(m, "uint64"))
-    out.append(translate_int_class(m, "IntType", "int64", "IntType"))
-    out.append(translate_int_class(m, "UintType", "uint64", "UintType"))
-    # handlers of the arithmetic rules of the interpreter
-    ev = parse("src/celpy/evaluation.py")
-    evcls = find_class(ev, "Evaluator")
-    for rule in ("addition", "multiplication", "unary"):
-        f = find_func(evcls.body, rule)
-        hs = []
-        for node in ast.walk(f):
-            if isinstance(node, ast.Try):
-                for h in node.handlers:
-                    hs += exc_names(h.type)
-        out.append(f"def handlers_{rule} : List Cel.Exc := " + lean_list([lean_exc(c) for c in hs]))
-    res = find_func(ev.body, "result")
-    tries = [s for s in res.body if isinstance(s, ast.Try)]
-    if len(tries) != 1 or len(tries[0].handlers) != 1:
-        raise TranslationError("result(): expected exactly one try/except")
-    out.append("def resultCaughtNum : List Cel.Exc := " + lean_list([lean_exc(c) for c in exc_names(tries[0].handlers[0].type)]))
-    out.append("end Cel.Gen\n")
-    return "\n".join(out)
-
-
-def exc_names(node) -> list:
-    if node is None:
-        return ["BaseException"]
-    if isinstance(node, ast.Tuple):
-        return [ast.unparse(e) for e in node.elts]
-    return [ast.unparse(node)]
-
-
-def lean_exc(name: str) -> str:
-    table = dict(EXC_MAP)
-    table.update({"NameError": ".nameError", "AttributeError": ".attributeError",
-                  "RecursionError": ".recursion", "SyntaxError": ".syntaxError",
-                  "CELEvalError": ".celEval", "CELSyntaxError": ".celSyntax",
-                  "re2.error": ".re2Error", "Exception": ".other", "BaseException": ".other"})
-    if name not in table:
-        raise TranslationError(f"exception class {name}")
-    return "Cel.Exc" + table[name]
-
-
-def gen_logic() -> str:
-    m = parse("src/celpy/celtypes.py")
-    ev = parse("src/celpy/evaluation.py")
-    out = [HEADER.format(src="src/celpy/celtypes.py (logical_*), src/celpy/evaluation.py (result)"),
-           "import Cel.Model.Logic\nnamespace Cel.Gen\nopen Cel (PyM O Exc)\n"]
-    for n in ["logical_and", "logical_or", "logical_not", "logical_condition"]:
-        out.append(translate_logic_fn(m, n, n))
-    # classes caught by result()
-    res = find_func(ev.body, "result")
-    tries = [s for s in res.body if isinstance(s, ast.Try)]
-    if len(tries) != 1 or len(tries[0].handlers) != 1:
-        raise TranslationError("result(): expected exactly one try/except")
-    caught = exc_names(tries[0].handlers[0].type)
-    out.append("/-- exception classes caught by `celpy.evaluation.result()` -/")
-    out.append("def resultCaught : List Exc := " + lean_list([lean_exc(c) for c in caught]) + "\n")
-    # reducers of macro_all / macro_exists: is logical_and wrapped by eval_error(TypeError)?
-    for fn, op in (("macro_all", "logical_and"), ("macro_exists", "logical_or")):
-        src = ast.unparse(find_func(ev.body, fn))
-        wrapped = f"eval_error('no such overload', TypeError)(celpy.celtypes.{op})" in src
-        out.append(f"def {fn}_reducer_catches_TypeError : Bool := {'true' if wrapped else 'false'}")
-    # interpreter handlers of the logical rules
-    evcls = find_class(ev, "Evaluator")
-    for rule in ("expr", "conditionalor", "conditionaland", "unary"):
-        f = find_func(evcls.body, rule)
-        hs = []
-        for node in ast.walk(f):
-            if isinstance(node, ast.Try):
-                for h in node.handlers:
-                    hs += exc_names(h.type)
-        out.append(f"def handlers_{rule} : List Exc := " + lean_list([lean_exc(c) for c in hs]))
-    out.append("\nend Cel.Gen\n")
-    return "\n".join(out)
-
-
-GENERATORS = {
-    "Num": gen_num,
-    "Logic": gen_logic,
-}
+def all_generators() -> dict:
+    gens = {}
+    pkg = importlib.import_module(__package__)
+    for m in sorted(pkgutil.iter_modules(pkg.__path__), key=lambda m: m.name):
+        if m.name.startswith("gen_"):
+            mod = importlib.import_module(f"{__package__}.{m.name}")
+            gens.update(getattr(mod, "GENERATORS", {}))
+    return gens
 
 
 def regen(names=None) -> dict:
     GEN.mkdir(parents=True, exist_ok=True)
     status = {}
-    for name, fn in GENERATORS.items():
+    for name, fn in all_generators().items():
         if names and name not in names:
             continue
         path = GEN / f"{name}.lean"
@@ -130,7 +47,12 @@ def regen(names=None) -> dict:
         old = path.read_text() if path.exists() else None
         if old != text:
             path.write_text(text)
-    (GEN / "_status.json").write_text(json.dumps(status, indent=1, sort_keys=True) + "\n")
+    try:
+        allst = json.loads((GEN / "_status.json").read_text())
+    except Exception:
+        allst = {}
+    allst.update(status)
+    (GEN / "_status.json").write_text(json.dumps(allst, indent=1, sort_keys=True) + "\n")
     return status
 
 
